@@ -34,6 +34,20 @@ def trace_section(exe, what, work, tier):
     r = subprocess.run([exe, what, tr, str(vlib.seed()), tier], capture_output=True, text=True, timeout=7200)
     if r.returncode != 0:
         raise RuntimeError("comp driver failed on %s: %s" % (what, r.stderr[-300:]))
+    # a section that dies may leave a partial line in front of the crash event the parent appends: drop it
+    good, dropped = [], 0
+    for line in open(tr, errors="replace"):
+        try:
+            json.loads(line)
+            good.append(line)
+        except ValueError:
+            k = line.rfind('{"e":"crash"')
+            k = k if k >= 0 else line.rfind('{"e":"timeout"')
+            if k >= 0:
+                good.append(line[k:])
+            dropped += 1
+    if dropped:
+        open(tr, "w").writelines(good)
     t = vlib.tlc("CompTrace", "CompTrace.cfg", workers=1, env={"TRACE": tr}, timeout=7200, java_opts=["-Xmx8g", "-Xss64m"])
     if t.rc != 0:
         t = vlib.tlc("CompTrace", "CompTrace.cfg", workers=1, env={"TRACE": tr}, timeout=7200, java_opts=["-Xmx8g", "-Xss64m"], quiet=False)
